@@ -156,7 +156,11 @@ class MembershipMonitor(Ext):
         if p.voter and p.obj._isLeader():
             c = p.obj.raftCommitIndex
             term = p.obj.raftCurrentTerm
-            unc = [e for e in p.journal.mirror if e[1] > c and cmd_type(e[0]) == MEMBERSHIP]
+            # (what some node has reported committed is committed, even if this leader - restarted on its journal with the commit
+            # index it had last stored - has yet to find out)
+            com = self.mon.committed
+            unc = [e for e in p.journal.mirror if e[1] > c and cmd_type(e[0]) == MEMBERSHIP
+                   and not (e[1] in com and com[e[1]][0] == e[2])]
             if len(unc) > 1:
                 self.mon.flag('C10', 'two_uncommitted_changes', '%r (leader, commit index %d) holds membership entries %r above its commit index'
                                 % (p, c, [(e[1], parse_membership(e[0])) for e in unc]), n=len(unc))
